@@ -78,7 +78,7 @@ def r1_static(repo: Repo, rep):
     # ---- hit paths: guard created ∧ (c + a ⋄ I), update c+1
     shape = None
     for p in hits:
-        created = any(kind == "if" and pol and dump(g) in ("self.created_points", "self.created_points is not None") for g, pol, kind in _flat_guards(p))
+        created = any(kind == "if" and ((pol and dump(g) in ("self.created_points", "self.created_points is not None")) or (not pol and dump(g) == "self.created_points is None")) for g, pol, kind in _flat_guards(p))
         rep.check(R, created, fi.site(p.ret_node), fi.fq, "the cache is returned only when points were created", f"guards {[dump(g) for g, _, _ in p.guards]}", "no created-guard")
         cmp = None
         for g, pol, kind in _flat_guards(p):
@@ -136,6 +136,24 @@ def r1_static(repo: Repo, rep):
         acts = sorted({dump(c.func) for c in ast.walk(q.node) if isinstance(c, ast.Call) and dump(c.func) in ("self.sample_points", "self.sampler.sample_points", "next")}
                       | {dump(t) for n in ast.walk(q.node) if isinstance(n, (ast.Assign, ast.AugAssign)) for t in (n.targets if isinstance(n, ast.Assign) else [n.target]) if dump(t).startswith("self.")})
         rep.check(R, not acts, q.site(), q.fq, f"{qname} is a pure query: it neither draws nor counts a use", str(acts), f"{qname}: {acts}")
+    # ---- "a set exists" is tested by identity with None: a drawn set with 0 rows is a set too (Points.__len__ makes it falsy)
+    for meth in (fi, ss.methods.get("__next__")):
+        if meth is None:
+            continue
+        truthy = []
+        for n_ in ast.walk(meth.node):
+            tests = []
+            if isinstance(n_, (ast.If, ast.IfExp, ast.While)):
+                tests = [n_.test]
+            for t in tests:
+                parts = t.values if isinstance(t, ast.BoolOp) else [t]
+                for q in parts:
+                    while isinstance(q, ast.UnaryOp) and isinstance(q.op, ast.Not):
+                        q = q.operand
+                    if dump(q) == "self.created_points" or (isinstance(q, ast.Call) and dump(q.func) in ("len", "bool") and q.args and dump(q.args[0]) == "self.created_points"):
+                        truthy.append(dump(t)[:60])
+        rep.check(R, not truthy, meth.site(), meth.fq, "the cache test is `self.created_points is (not) None`", f"truth value / length of the cached Points decides: {truthy} - an empty first draw is never cached",
+                  f"{meth.name}: truthiness of created_points {truthy}")
     # ---- next(static) serves the cached set without counting a use
     nx = ss.methods.get("__next__")
     if nx is not None:
@@ -144,7 +162,8 @@ def r1_static(repo: Repo, rep):
         for p in paths(nx.node):
             if p.ret is RAISE:
                 continue
-            created = [pol for g, pol, kind in _flat_guards(p) if kind == "if" and dump(g) in ("self.created_points", "self.created_points is not None")]
+            created = [pol for g, pol, kind in _flat_guards(p) if kind == "if" and dump(g) in ("self.created_points", "self.created_points is not None")] + \
+                      [not pol for g, pol, kind in p.guards if kind == "if" and dump(g) == "self.created_points is None"]
             calls = [dump(c.func) for e in p.events if e.value is not None for c in ast.walk(e.value) if isinstance(c, ast.Call) and dump(c.func) in ("self.sample_points", "self.sampler.sample_points")]
             writes = [dump(e.target) for e in p.events if e.kind in ("attr", "aug")]
             if created and created[0]:
@@ -470,10 +489,11 @@ def run(repo: Repo, rep):
 _B = "src/torchphysics/problem/samplers/sampler_base.py"
 _R = "src/torchphysics/problem/samplers/random_samplers.py"
 MUTANTS = [
+    dict(id="C15-M60", file=_B, old="        if self.created_points is not None and self.counter < self.resample_interval:", new="        if self.created_points and self.counter < self.resample_interval:", rule="R-C15-1", what="cache tested by truth value (the repaired defect)"),
     dict(id="C15-M1", file=_B, old="self.counter < self.resample_interval", new="self.counter <= self.resample_interval", rule="R-C15-1", what="<="),
     dict(id="C15-M2", file=_B, old="        self.counter = 0\n        points = self.sampler.sample_points", new="        self.counter = 1\n        points = self.sampler.sample_points", rule="R-C15-1", what="reset to 1"),
-    dict(id="C15-M3", file=_B, old="        self.counter += 1\n        if self.created_points and self.counter < self.resample_interval:\n            self._change_device(device=device)\n            return self.created_points",
-         new="        if self.created_points and self.counter < self.resample_interval:\n            self.counter += 1\n            self._change_device(device=device)\n            return self.created_points", rule="R-C15-1", what="increment after the test"),
+    dict(id="C15-M3", file=_B, old="        self.counter += 1\n        # (a drawn set without any point is a set too: compare with None)\n        if self.created_points is not None and self.counter < self.resample_interval:\n            self._change_device(device=device)\n            return self.created_points",
+         new="        if self.created_points is not None and self.counter < self.resample_interval:\n            self.counter += 1\n            self._change_device(device=device)\n            return self.created_points", rule="R-C15-1", what="increment after the test"),
     dict(id="C15-M4", file=_R, old="                unreduced_loss < min_l + (max_l - min_l) * self.resample_ratio", new="                unreduced_loss > min_l + (max_l - min_l) * self.resample_ratio", rule="R-C15-2", what=">"),
     dict(id="C15-M5", file=_R, old="filter_tensor = unreduced_loss < min_l + (max_l - min_l) * torch.rand_like(", new="filter_tensor = unreduced_loss >= min_l + (max_l - min_l) * torch.rand_like(", rule="R-C15-2", what=">="),
     dict(id="C15-M6", file=_R, old="                unreduced_loss < min_l + (max_l - min_l) * self.resample_ratio", new="                unreduced_loss < max_l - (max_l - min_l) * self.resample_ratio", rule="R-C15-2", what="threshold from the top"),
